@@ -6,7 +6,7 @@ import fw, execlib
 from fw import Outcome
 from pyspec import Spec
 
-EDITS = ("setv", "clearat", "clear", "clearall", "setf", "setcached", "setref", "recalc")
+EDITS = ("setv", "clearat", "clear", "clearall", "setf", "setcached", "setref", "recalc", "setallow")
 
 
 def apply_def_edit(w, op):
@@ -17,6 +17,8 @@ def apply_def_edit(w, op):
         w["cells"][op[1]]["cached"] = op[2]
     elif t == "setref":
         w["refs"][op[1]]["val"] = op[2]
+    elif t == "setallow":        # (P)-only operation: cells.allow_none = flag
+        w["cells"][op[1]]["allow_none"] = op[2]
 
 
 def worlds_along(case):
@@ -524,6 +526,10 @@ def run_exec_property(prop, tier, rng, n_quick, n_thorough, gen_kw, weights, nop
         out.p_failures += fl
     # (T)
     out.extra["cases_with_try_finally"] = sum(1 for i in good if execlib.has_fin(cases[i]))
+    # histories with the (P)-only operation cells.allow_none = flag have no term of Exec/Model.v
+    pgood = list(good)
+    good = [i for i in good if not execlib.has_ponly_op(cases[i])]
+    out.extra["cases_with_allow_none_toggles_P_only"] = len(pgood) - len(good)
     bad = execlib.tie(prop, [cases[i] for i in good], [res[i] for i in good])
     for b in bad[:5]:
         i = good[b]
